@@ -49,6 +49,9 @@ def truth_table(pairs: List[Tuple[frozenset, object]], var_of: Dict[str, str], r
 
 # --------------------------------------------------------------------------- GIT1
 def _classify(A: Analysis, fi, e: ast.expr) -> str:
+    # a closure variable of a nested function is defined in the enclosing function
+    if isinstance(e, ast.Name) and fi.parent is not None and e.id not in fi.params and not A.defs(fi, e.id):
+        return _classify(A, fi.parent, e)
     if isinstance(e, ast.Name) and A.single_def_value(fi, e.id) is None and e.id not in fi.params:
         vals = [d.value for d in A.defs(fi, e.id) if isinstance(d, (ast.Assign, ast.AnnAssign)) and d.value is not None
                 and not (isinstance(d.value, ast.Constant) and d.value.value is None)]
@@ -103,6 +106,10 @@ def rule_git1(A: Analysis, rep):
             b = A.bind_args(c, callee)
             roles = {k: _classify(A, f, v) for k, v in b.items()}
             key = (f.fq, name)
+            top = f
+            while top.parent is not None:      # a nested helper (sort key, predicate) belongs to its enclosing function
+                top = top.parent
+            key = (top.fq, name)
             seen.add(key)
             w = want.get(key)
             if w is None:
@@ -134,6 +141,71 @@ def rule_git1(A: Analysis, rep):
 
 
 # --------------------------------------------------------------------------- SEL1
+def _sel1_comprehension_form(A: Analysis, rep, fi, g, ctx, rets) -> bool:
+    """SEL1 (b)–(e) when the candidates are built by comprehensions and the choice is `min(candidates, key=K)` with
+    K(v) = (distance from HEAD, -timestamp).  Returns False when the function is not of that form."""
+    allq = "%s.version_index.get_all_versions_for_task(self._identifier)" % ctx
+    comps = {}
+    for st in walk_local(fi.node):
+        if isinstance(st, (ast.Assign, ast.AnnAssign)) and isinstance(st.value, ast.ListComp) and len(st.value.generators) == 1:
+            gen = st.value.generators[0]
+            tg = st.targets[0] if isinstance(st, ast.Assign) else st.target
+            if isinstance(tg, ast.Name) and isinstance(gen.target, ast.Name) and A.xtext(gen.iter, fi) == allq and norm(st.value.elt) == gen.target.id:
+                cond = ast.BoolOp(op=ast.And(), values=list(gen.ifs)) if len(gen.ifs) > 1 else (gen.ifs[0] if gen.ifs else ast.Constant(value=True))
+                comps[tg.id] = (gen.target.id, A.dnf(cond, True, fi, inline=False), st)
+    anc = [k for k, (v, d, _s) in comps.items() if any(any("is_ancestor" in a for a, _p in c) for c in d)]
+    nul = [k for k, (v, d, _s) in comps.items() if d == [frozenset({("none(%s.commit_hash)" % v, True)})]]
+    if len(anc) != 1 or len(nul) != 1:
+        return False
+    anc_l, nul_l = anc[0], nul[0]
+    v, d, st_anc = comps[anc_l]
+    ok_b = len(d) == 1 and ("none(%s.commit_hash)" % v, False) in d[0] and len(d[0]) == 2 and all(pol for a, pol in d[0] if "is_ancestor" in a)
+    rep.check(ok_b, "SEL1", "(b) ancestor candidates", st_anc, "a version is a candidate only if its commit is non-null and an ancestor of HEAD; null-commit versions are kept apart",
+              "candidate classification is %s" % {k: [fmt_conj(c) for c in dd] for k, (_v, dd, _s) in comps.items()})
+    # (c) min(candidates, key=K), K(v) = (get_distance(HEAD, v.commit_hash), -v.timestamp): closest first, newest among the
+    # closest (min keeps the first of equal keys, like the strict comparisons of the loop form)
+    sr = [n for n in rets if isinstance(n.ast.value, ast.Call) and norm(n.ast.value.func) == "min" and n.ast.value.args and norm(n.ast.value.args[0]) == anc_l]
+    ok_c = False
+    det = "no `min(%s, key=...)` return" % anc_l
+    if len(sr) == 1:
+        key = A.kw(sr[0].ast.value, "key")
+        body, var = None, None
+        if isinstance(key, ast.Lambda) and len(key.args.args) == 1:
+            body, var = key.body, key.args.args[0].arg
+        elif isinstance(key, ast.Name) and key.id in fi.nested:
+            kf = fi.nested[key.id]
+            rr = [x for x in walk_local(kf.node) if isinstance(x, ast.Return)]
+            if len(rr) == 1 and len(kf.params) == 1:
+                body, var = rr[0].value, kf.params[0]
+        if isinstance(body, ast.Tuple) and len(body.elts) == 2:
+            d0, d1 = body.elts
+            ok_c = isinstance(d0, ast.Call) and A.res.is_call_to(d0, "Git.get_distance") and norm(d1) == "-%s.timestamp" % var and \
+                any(norm(a_) == "%s.commit_hash" % var for a_ in list(d0.args) + [k.value for k in d0.keywords])
+            det = "key is `%s`" % norm(body)
+    rep.check(ok_c, "SEL1", "(c) closest ancestor, newest on ties", sr[0].ast if sr else fi.node,
+              "min over (distance, -timestamp): the closest candidate, the newest among equally close ones", det)
+    gs = [c for n in sr for c in A.path_guards(g, g.entry, n, fi)]
+    rep.check(bool(sr) and all(("empty(%s)" % anc_l, False) in c for c in gs), "SEL1", "(c') returned when a candidate exists", fi.node, "",
+              "the selected ancestor version is not returned under `len(candidates) > 0`")
+    # (d) fallback
+    fb = [n for n in rets if isinstance(n.ast.value, ast.Call) and norm(n.ast.value.func) == "max"]
+    ok_d = False
+    det = "no `max(null-commit versions, key=timestamp)` return"
+    if len(fb) == 1:
+        c = fb[0].ast.value
+        key = A.kw(c, "key")
+        ok_d = len(c.args) == 1 and norm(c.args[0]) == nul_l and key is not None and isinstance(key, ast.Lambda) and norm(key.body) == "%s.timestamp" % key.args.args[0].arg
+        gs = A.path_guards(g, g.entry, fb[0], fi)
+        evs = {norm(comps[nul_l][2].value.generators[0].iter)}
+        ok_g = bool(gs) and all(any(("eq(len(%s),len(%s))" % tuple(sorted([ev, nul_l])), True) in cj for ev in evs) and ("empty(%s)" % nul_l, False) in cj and ("empty(%s)" % anc_l, True) in cj for cj in gs)
+        ok_d = ok_d and ok_g
+        det = "fallback guard [%s]" % " | ".join(fmt_conj(cj) for cj in gs)
+    rep.check(ok_d, "SEL1", "(d) null-commit fallback", fi.node, "newest version only when no version carries a commit", det)
+    last = [n for n in rets if n.ast.value is None or norm(n.ast.value) == "None"]
+    rep.check(bool(last), "SEL1", "(e) otherwise nothing is reused", fi.node, "", "the final fall-through does not return None (a non-ancestor version could be reused)")
+    return True
+
+
 def rule_sel1(A: Analysis, rep):
     fi = A.fn(RUNX + "_retrieve_most_relevant_existing_version")
     g = A.cfg(fi, "plain")
@@ -168,6 +240,8 @@ def rule_sel1(A: Analysis, rep):
     loops = [l for l in walk_local(fi.node) if isinstance(l, ast.For)]
     cl = [l for l in loops if A.xtext(l.iter, fi) == "%s.version_index.get_all_versions_for_task(self._identifier)" % ctx]
     if len(cl) != 1:
+        if _sel1_comprehension_form(A, rep, fi, g, ctx, rets):
+            return
         rep.bad("SEL1", "(b) classification loop", fi.node, "no loop over all recorded versions of this task")
         return
     cl = cl[0]
